@@ -458,6 +458,20 @@ class TrackCheck:
                     not inv([pt.location.longitude, pt.location.latitude], want)[2] <= TOL_POS:
                 self.fail('location.boundary', 'ground_track.location', 'start' if d == 0.0 else 'end',
                           f'location({d!r}) = {pt}, expected waypoint {want}')
+            # a returned point is the caller's: editing it must not change what the track answers next time
+            before = (pt.location.longitude, pt.location.latitude, pt.azimuth)
+            try:
+                other = self.track.location(self.Lc - d)
+                pt.azimuth = -45.0
+                pt.location = other.location
+            except Exception:  # noqa: BLE001  (immutable points cannot alias harmfully)
+                return
+            st2, pt2 = self.call(self.track.location, d)
+            if st2 == 'ok':
+                after = (pt2.location.longitude, pt2.location.latitude, pt2.azimuth)
+                if after != before:
+                    self.fail('location.aliasing', 'ground_track.location', 'start' if d == 0.0 else 'end',
+                              f'location({d!r}) answered {before}, the caller edited the returned point, now it answers {after}')
             return
         self.check_location(pt, d, 'location', 'ground_track.location')
 
